@@ -325,6 +325,11 @@ class ProcSched:
                     pass
             for k in kids:
                 try:
+                    if k["state"] != "done":
+                        os.kill(k["pid"], 9)  # parked forever or spinning: it will not finish by itself
+                except OSError:
+                    pass
+                try:
                     os.waitpid(k["pid"], 0)
                 except ChildProcessError:
                     pass
